@@ -37,3 +37,12 @@ class Pair(SubclassJSONSerializer):
 CLASSES = {"Node1": Node1, "Pair": Pair}
 FIELDS = {"Node1": ["p"], "Pair": ["first", "second", "third"]}
 DEPTH = {"Node1": 1, "Pair": 1}
+
+
+class UUID:
+    """A plain class that shares its simple name with a registered third-party type (uuid.UUID): a tag that names it is
+    not deserialisable."""
+
+
+class Decimal:
+    """As UUID, for decimal.Decimal."""
